@@ -44,6 +44,10 @@ var methodShapes = []secShape{
 	// scopes as identity providers write them, repeated scopes, three alternatives
 	{"s1[read:users,write.all]", []scen.Sec{sec("s1", "read:users", "write.all")}},
 	{"s1[a,a]|s2[a]|s1[b]", []scen.Sec{sec("s1", "a", "a"), sec("s2", "a"), sec("s1", "b")}},
+	// undeclared names that are near misses of declared ones: other letter case, a prefix, trailing text
+	{"S1[a]", []scen.Sec{sec("S1", "a")}},
+	{"s1[a]|s[b]", []scen.Sec{sec("s1", "a"), sec("s", "b")}},
+	{"s1x[a]", []scen.Sec{sec("s1x", "a")}},
 }
 
 var ctlShapes = []secShape{
@@ -252,7 +256,7 @@ func Main(tier, replay string) {
 				namesUndeclared := (undeclared(effOp) && !ci.Hidden) || undeclared(effSib)
 				if single {
 					if namesUndeclared && len(docs) > 0 {
-						run.Report(core.Violation{Oracle: "undeclared-scheme-yields-no-spec", Features: feat(), What: "a documented route's effective security names scheme zz, which is not configured, yet a spec was produced", Case: c})
+						run.Report(core.Violation{Oracle: "undeclared-scheme-yields-no-spec", Features: feat(), What: "a documented route's effective security names a scheme that is not configured, yet a spec was produced", Case: c})
 					}
 					if !namesUndeclared && !undeclared(effOp) && specErr != "" {
 						run.Report(core.Violation{Oracle: "declared-schemes-yield-a-spec", Features: feat(), What: "all effective securities use configured schemes but spec generation failed: " + specErr, Case: c})
